@@ -27,6 +27,12 @@ package node
 //@   props C15
 //@   ensures gate: r <==> maplen(s.workers) < s.Max
 
+// The second gate, after the asynchronous bootstrap: the limit is re-checked
+// at the moment the worker is about to be tracked.
+//@ func (s *Supervisor) ForkingWorkerEnter(e *am.Event) (r bool)
+//@   props C15
+//@   requires nn: e != nil
+//@   ensures below_max: r ==> maplen(s.workers) < s.Max
 
 //@ func (s *Supervisor) CheckPool() (r bool)
 //@   trusted re-checks the pool through the machine API (NormalizingPool, PoolReady mutations)
